@@ -5,6 +5,8 @@ package serveruser
 import (
 	"fmt"
 	"strings"
+
+	"github.com/enfein/mieru/v3/pkg/cipher"
 )
 
 // VerifBucket is the cache bucket a source falls into (the hash seed is per process).
@@ -76,4 +78,22 @@ func VerifDump(r *Registry, srcs []Source) string {
 		b.WriteString("]")
 	}
 	return b.String()
+}
+
+// VerifDiscoverWithHook is Registry.Discover with the package's own afterAttempt seam: hook runs
+// once, after the first attempt on a generation and before the implementation decides whether
+// that generation is still current.
+func VerifDiscoverWithHook(r *Registry, encryptedMetadata []byte, source Source, requireCurrent bool, hook func()) (cipher.BlockCipher, []byte, Authentication, error) {
+	done := false
+	result, err := discoverUser(&r.users, &r.hintMandatory, encryptedMetadata, source, requireCurrent, func(*state) {
+		if !done {
+			done = true
+			hook()
+		}
+	})
+	if err != nil {
+		return nil, nil, Authentication{}, err
+	}
+	result.block.SetBlockContext(result.userContext)
+	return result.block, result.decryptedMetadata, result.authentication(source), nil
 }
